@@ -611,7 +611,7 @@ def section_find_time_like(ck, impl):
     terms, meta = [], []
     mni = space_names("mni")
     for cb in combos:
-        for mname, B in (mats.items() if ck.thorough() else [list(mats.items())[int(rng.integers(0, 5))]]):
+        for mname, B in ([list(mats.items())[i] for i in (0, 1, 2, 4)] if ck.thorough() else [list(mats.items())[int(rng.integers(0, 5))]]):
             for fix0 in ((True, False) if mname.startswith("zero") else (True,)):
                 inn = ["i", "j", "k", cb[0] or "l", cb[1] or "m"]
                 outn = mni + [cb[2] or "u", cb[3] or "v"]
@@ -757,7 +757,7 @@ def section_filenames(ck, impl):
 def section_files(ck, impl):
     """load_image(save_image(img, path)) for every documented format and dtype"""
     rng = ck.rng("files")
-    N = ck.n(14, 120)
+    N = ck.n(14, 60)
     exts = [".nii", ".nii.gz", ".hdr", ".img"]
     dtypes = [np.uint8, np.int16, np.int32, np.float32, np.float64]
     d = ck.scratch / "files"
@@ -873,7 +873,7 @@ def run(ck):
     rng = ck.rng("images")
     dims = [3, 4, 5, 6] if not ck.thorough() else [3, 4, 5, 6, 7]
     cases = section_boundaries(ck, impl)
-    cases += gen_random_cases(ck, rng, ck.n(700, 9000), dims)
+    cases += gen_random_cases(ck, rng, ck.n(700, 5000), dims)
     n1 = run_image_cases(ck, impl, cases, "random")
     lap("random")
     if ck.thorough():
